@@ -1,7 +1,153 @@
 import CB.Driver.Util
+import CB.Model.Div
 namespace CB
+open CB.Div
 
-/-- operations of property C02 (op names start with `c02.`) -/
-def dispatchC02 : Dispatch := fun _ _ => none
+/-! Driver of property C02.  Every public operation prints `L1 ;; L0`:
+    L1 = the limb-level model (`CB.Model.DivLimb`, `CB.Model.Div`), L0 = `n / d`, `n % d` on `Nat`. -/
+
+private def hexW (n : Nat) (x : Nat) : String := natToHex (x % B ^ n)
+
+/-- print `<nlimbs>:<hex>` of a value in `n` limbs -/
+private def lenHex (n : Nat) (x : Nat) : String := s!"{n}:{natToHex (x % B ^ n)}"
+
+private def both (l1 l0 : String) : Option String := some (l1 ++ " ;; " ++ l0)
+
+private def qr (p : List Nat × List Nat) : String := s!"{limbsHex p.1} {limbsHex p.2}"
+private def qrLen (p : List Nat × List Nat) : String := s!"{limbsHexLen p.1} {limbsHexLen p.2}"
+
+private def optHex : Option (List Nat) → String
+  | some v => limbsHex v
+  | none => "none"
+
+/-- fixed-width ops `c02.u.<name> L n d` -/
+private def fixedOp (name : String) (L n d : Nat) : Option String :=
+  let a := toLimbs L n
+  let b := toLimbs L d
+  let q0 := hexW L (n / d)
+  let r0 := hexW L (n % d)
+  if name = "checked_div" then
+    both (optHex (checkedDiv a b)) (if d = 0 then "none" else q0)
+  else if name = "checked_rem" then
+    both (optHex (checkedRem a b)) (if d = 0 then "none" else r0)
+  else if d = 0 then
+    -- `Uint / Uint`, `Uint % Uint`, `wrapping_rem_vartime` document a panic for a zero divisor;
+    -- every other form takes `NonZero`, whose constructor yields none
+    if name = "op_div_uint" ∨ name = "op_rem_uint" ∨ name = "wrapping_rem_vartime" then both "panic" "panic"
+    else both "none" "none"
+  else match name with
+  | "div_rem" => both (qr (divRemCt a b)) s!"{q0} {r0}"
+  | "div_forms" => both (limbsHex (wrappingDiv a b) ++ " ok") (q0 ++ " ok")
+  | "rem_forms" => both (limbsHex (urem a b) ++ " ok") (r0 ++ " ok")
+  | "op_div_uint" => both (limbsHex (wrappingDiv a b) ++ " ok") (q0 ++ " ok")
+  | "op_rem_uint" => both (limbsHex (urem a b) ++ " ok") (r0 ++ " ok")
+  | "div_rem_vartime" => both (qr (divRemVartime a b) ++ " ok") s!"{q0} {r0} ok"
+  | "wrapping_rem_vartime" => both (limbsHex (remVartime a b)) r0
+  | _ => none
+
+/-- boxed ops `c02.b.<name> NL DL n d` -/
+private def boxedOp (name : String) (NL DL n d : Nat) : Option String :=
+  let a := toLimbs NL n
+  let b := toLimbs DL d
+  let q0 := lenHex NL (n / d)
+  let r0 := lenHex DL (n % d)
+  if name = "checked_div" ∨ name = "checked_div_mixed" then
+    both (match boxedCheckedDiv a b with
+          | some (some p) => limbsHexLen p
+          | some none => "none"
+          | none => "panic") (if d = 0 then "none" else q0)
+  else if d = 0 then both "none" "none"
+  else match name with
+  | "div_rem" | "div_rem_mixed" =>
+    both (match boxedDivRem a b with | some p => qrLen p | none => "panic") s!"{q0} {r0}"
+  | "div_forms" | "div_forms_mixed" =>
+    both (match boxedDivRem a b with | some p => limbsHexLen p.1 ++ " ok" | none => "panic") (q0 ++ " ok")
+  | "rem_forms" | "rem_forms_mixed" =>
+    both (match boxedDivRem a b with | some p => limbsHexLen p.2 ++ " ok" | none => "panic") (r0 ++ " ok")
+  | "div_rem_vartime" => both (qrLen (boxedDivRemVartime a b) ++ " ok") s!"{q0} {r0} ok"
+  | "rem_vartime" => both (limbsHexLen (boxedRemVartime a b)) r0
+  | _ => none
+
+private def nat4 (a b c d : String) (f : Nat → Nat → Nat → Nat → Option String) : Option String :=
+  match a.toNat?, b.toNat?, hexToNat? c, hexToNat? d with
+  | some a, some b, some c, some d => f a b c d
+  | _, _, _, _ => badArgs
+
+def dispatchC02 : Dispatch := fun op args =>
+  match op.splitOn ".", args with
+  -- `Reciprocal::new(d)` observed through its `Debug` output: divisor_normalized shift reciprocal
+  | ["c02", "recip"], [d] =>
+    match hexToNat? d with
+    | some d =>
+      if d = 0 then some "none" else
+      let rc := Reciprocal.new d
+      both s!"{natToHex rc.divisorNormalized} {rc.shift} {natToHex rc.reciprocal}"
+           s!"{natToHex rc.divisorNormalized} {rc.shift} {natToHex (reciprocalSpec rc.divisorNormalized)}"
+    | none => badArgs
+  -- `div2by1(u1, u0, Reciprocal::new(d))`, `d ≥ 2^63`, `u1 < d` (observed through a two-limb division)
+  | ["c02", "div2by1"], [u1, u0, d] =>
+    match hexToNat? u1, hexToNat? u0, hexToNat? d with
+    | some u1, some u0, some d =>
+      if d < HALF ∨ u1 ≥ d then badArgs else
+      let r := div2by1 u1 u0 (Reciprocal.new d)
+      both s!"{natToHex r.1} {natToHex r.2}" s!"{natToHex ((u1 * B + u0) / d)} {natToHex ((u1 * B + u0) % d)}"
+    | _, _, _ => badArgs
+  -- hook-level (crate-internal) functions; no L0
+  | ["c02", "hook", "reciprocal"], [d] =>
+    match hexToNat? d with
+    | some d => some (natToHex (reciprocalImpl d))
+    | none => badArgs
+  | ["c02", "hook", "div2by1"], [u1, u0, d] =>
+    match hexToNat? u1, hexToNat? u0, hexToNat? d with
+    | some u1, some u0, some d =>
+      let r := div2by1 u1 u0 (Reciprocal.new d); some s!"{natToHex r.1} {natToHex r.2}"
+    | _, _, _ => badArgs
+  | ["c02", "hook", "div3by2"], [u2, u1, u0, v1, v0] =>
+    match hexToNat? u2, hexToNat? u1, hexToNat? u0, hexToNat? v1, hexToNat? v0 with
+    | some u2, some u1, some u0, some v1, some v0 =>
+      some (natToHex (div3by2 u2 u1 u0 (Reciprocal.new v1) v0))
+    | _, _, _, _, _ => badArgs
+  -- single-limb divisor, fixed: `c02.u.<name> L n d`
+  | ["c02", "u", "div_rem_limb"], [l, n, d] =>
+    match l.toNat?, hexToNat? n, hexToNat? d with
+    | some L, some n, some d =>
+      if d = 0 then some "none" else
+      let r := divRemLimb (toLimbs L n) d
+      let rr := remLimb (toLimbs L n) d
+      both s!"{limbsHex r.1} {natToHex r.2} {natToHex rr} ok" s!"{hexW L (n / d)} {natToHex (n % d)} {natToHex (n % d)} ok"
+    | _, _, _ => badArgs
+  | ["c02", "b", "div_rem_limb"], [l, n, d] =>
+    match l.toNat?, hexToNat? n, hexToNat? d with
+    | some L, some n, some d =>
+      if d = 0 then some "none" else
+      let r := divRemLimb (toLimbs L n) d
+      let rr := boxedRemLimb (toLimbs L n) d
+      both s!"{limbsHexLen r.1} {natToHex r.2} {natToHex rr} ok" s!"{lenHex L (n / d)} {natToHex (n % d)} {natToHex (n % d)} ok"
+    | _, _, _ => badArgs
+  | ["c02", "u", "rem_wide_vartime"], [l, lo, hi, d] =>
+    match l.toNat?, hexToNat? lo, hexToNat? hi, hexToNat? d with
+    | some L, some lo, some hi, some d =>
+      if d = 0 then some "none" else
+      both (limbsHex (remWideVartime (toLimbs L lo) (toLimbs L hi) (toLimbs L d)))
+           (hexW L ((lo % B ^ L + B ^ L * (hi % B ^ L)) % d))
+    | _, _, _, _ => badArgs
+  | ["c02", "u", "rem2k_vartime"], [l, n, k] =>
+    match l.toNat?, hexToNat? n, k.toNat? with
+    | some L, some n, some k =>
+      both (limbsHex (rem2kVartime (toLimbs L n) k)) (hexW L (n % 2 ^ k))
+    | _, _, _ => badArgs
+  -- mixed widths: `c02.u.<name> L R n d`
+  | ["c02", "u", "div_rem_vartime_mixed"], [l, r, n, d] => nat4 l r n d fun L R n d =>
+      if d = 0 then some "none" else
+      both (qr (divRemVartime (toLimbs L n) (toLimbs R d))) s!"{hexW L (n / d)} {hexW R (n % d)}"
+  | ["c02", "u", "rem_mixed"], [l, r, n, d] => nat4 l r n d fun L R n d =>
+      if d = 0 then some "none" else
+      both (limbsHex (divRemVartime (toLimbs L n) (toLimbs R d)).2) (hexW R (n % d))
+  | ["c02", "u", name], [l, n, d] =>
+    match l.toNat?, hexToNat? n, hexToNat? d with
+    | some L, some n, some d => fixedOp name L n d
+    | _, _, _ => badArgs
+  | ["c02", "b", name], [nl, dl, n, d] => nat4 nl dl n d fun NL DL n d => boxedOp name NL DL n d
+  | _, _ => none
 
 end CB
